@@ -584,8 +584,8 @@ class StmtMixin:
             if not isinstance(k, int) or k >= len(rec):
                 continue
             h = rec[k]
-            if k < len(cur) and cur[k] == h and rec[:k].count(h) == cur[:k].count(h):
-                continue
+            if k < len(cur) and cur[k] == h:
+                continue        # the loop at this ordinal still carries the recorded header
             j = rec[:k].count(h)
             where = [i for i, x in enumerate(cur) if x == h]
             if j >= len(where):
